@@ -69,6 +69,8 @@ def install():
                 st.g["Alloc"] = a + 1
                 st.upd("Cell", a, val.term)
                 st.event("entry-created", static[0], to_val(args[0]), a, dict(val.meta.get("items", {})))
+                # the new entry dict is a built-in container that belongs to no collection tree [A-TREE]
+                st.ghost["frame_cells"] = list(st.ghost.get("frame_cells", [])) + [a]
                 # a shared-memory entry holds the collection's own container: remember which node it belongs to
                 args = [args[0], Z(VRef(a), "dict", {"entry_of": (static[0], to_val(args[0]))})]
         if (static is not None and static[1] == "_buffer") or ref.meta.get("entry_of") is not None:
